@@ -860,6 +860,14 @@ def check(run, project):
     discarded_generators(run, project, "Q7", modules=(PRETTY, EVENTS, "tpmstream.io.binary.unmarshal"))
     from .shared import undefined_names
     undefined_names(run, project, "Q6", (PRETTY, EVENTS, "tpmstream.io.binary.unmarshal"), what="the printer fails instead of printing")
+    # Q9 (= C17-M2, accessor): the value column of an attribute word is its text form, which lists a field exactly when reading
+    # the field through its accessor gives a non-zero number - the accessor must give the field's bits right-aligned
+    from ..report import RuleView as _RV9
+    from . import c17 as _c17
+    try:
+        _c17.m2_accessor(_RV9(run, "M2", "Q9"), project, ctx.layout(project))
+    except AnalysisError as ex:
+        run.info(f"Q9: the bit-field accessor could not be followed ({ex}); not judged here (C17 reports it)")
     # the two methods of a response code the printers call - its text form for the value column, attributes() for the bit
     # rows - are walked path by path (the symbolic walk of C18): a local read on a path that never assigned it stops the
     # printer with UnboundLocalError for every code of that path
